@@ -202,20 +202,7 @@ impl RateLimiter {
                 let bucket = Arc::clone(bucket);
                 drop(buckets); // Release read lock before acquiring mutex
 
-                // Consume tenant token first.
-                if !bucket.lock().try_consume() {
-                    return false;
-                }
-
-                // Consume global token only after tenant passes.
-                if let Some(global) = &self.global_bucket {
-                    if !global.lock().try_consume() {
-                        bucket.lock().refund_one();
-                        return false;
-                    }
-                }
-
-                return true;
+                return self.consume_tenant_then_global(&bucket);
             }
         }
 
@@ -232,14 +219,26 @@ impl RateLimiter {
         };
 
         // Consume tenant token after releasing write lock.
-        if !bucket.lock().try_consume() {
+        self.consume_tenant_then_global(&bucket)
+    }
+
+    /// Tenant token first, then the global token; the tenant token is handed back when the global
+    /// bucket refuses.
+    ///
+    /// The tenant bucket stays locked until the outcome is known (lock order: tenant bucket, then
+    /// global bucket, never the reverse). Releasing it between the consume and the refund let
+    /// other callers of the tenant run against a bucket that was missing a token it was about to
+    /// get back: after a refill they drained it, the late refund then added one more, and the
+    /// tenant was admitted `burst + 1` requests in an interval of length zero.
+    fn consume_tenant_then_global(&self, bucket: &Mutex<TokenBucket>) -> bool {
+        let mut tenant_bucket = bucket.lock();
+        if !tenant_bucket.try_consume() {
             return false;
         }
 
-        // Consume global token only after tenant passes.
         if let Some(global) = &self.global_bucket {
             if !global.lock().try_consume() {
-                bucket.lock().refund_one();
+                tenant_bucket.refund_one();
                 return false;
             }
         }
